@@ -38,12 +38,12 @@ CLAIMS.update({
    ref="DESIGN.md section 4 C03"),
  "C13": dict(
    technique="must-pass-through on the structured CFG with retry-idiom recognition; may-throw summaries; guard dataflow",
-   text="Decides the structural half of C13: triangulate_surface can only return a cell that passed initialize_cell_properties(check=true) on that path (bounded-retry idiom recognised, failure exit throws intialization_exception); initialize_cell_properties(true) passes through generate_edge_set, throws on !is_manifold() and orients normals; per-cell work runs under parallel_exception_handler; no noexcept function on the start-up cone leaks an exception; every insertion into the Poisson grid is guarded by the all-neighbours |p-q|^2 < l_min*l_min rejection over the neighbourhood of the same grid. Also: cell::is_manifold tests both 'every edge has two faces' and V - E + F == 2; the grid in which accepted Poisson samples are looked up has a voxel size >= the rejection distance; parallel_exception_handler transports the worker's exception unchanged (catch(...) + current_exception, no slicing). Also: the stored face normals are computed after the orientation repair in initialize_cell_properties; no function on the start-up cone keeps a function-local static initialised from run-time values. Also: the ball-pivoting algorithm is given the same length as the minimum spacing of the sampled point cloud.",
+   text="Decides the structural half of C13: triangulate_surface can only return a cell that passed initialize_cell_properties(check=true) on that path (bounded-retry idiom recognised, failure exit throws intialization_exception); initialize_cell_properties(true) passes through generate_edge_set, throws on !is_manifold() and orients normals; per-cell work runs under parallel_exception_handler; no noexcept function on the start-up cone leaks an exception; every insertion into the Poisson grid is guarded by the all-neighbours |p-q|^2 < l_min*l_min rejection over the neighbourhood of the same grid. Also: cell::is_manifold tests both 'every edge has two faces' and V - E + F == 2; the grid in which accepted Poisson samples are looked up has a voxel size >= the rejection distance; parallel_exception_handler transports the worker's exception unchanged (catch(...) + current_exception, no slicing). Also: the stored face normals are computed after the orientation repair in initialize_cell_properties; no function on the start-up cone keeps a function-local static initialised from run-time values. Also: the ball-pivoting algorithm is given the same length as the minimum spacing of the sampled point cloud. Also: the handlers of the retry loop catch every failure of an attempt; the Poisson sampling rejects a candidate closer than l_min to any accepted neighbour, without exemptions.",
    note="Fidelity of the reconstruction (volume, bounding box, distance to the input surface) and the success probability are value-level and not decided. Neighbourhood completeness is C20.",
    ref="DESIGN.md section 4 C13"),
  "C15": dict(
    technique="OpenMP region analysis over clang AST with the build's own flags: may-write effect summaries (call graph fixpoint), may-throw containment, container-resize typestate",
-   text="Decides data-race freedom and exception containment of every parallel region (directive regions and parallel_exception_handler call sites) in all six configurations: no exception can leave a region; a catch(...) in a region only stores current_exception() under critical and it is rethrown right after; no container is resized in a region while accessed outside the same critical section; every mutation of shared state by the region body or its whole callee closure is atomic, critical, under the node's lock, or confined to the loop's own element; vec3::translate's updates are atomic in the program as built (the compile database's flags are used, which is how the missing -fopenmp of math_modules was found). Also: the region rules are also decided for units built without -fopenmp whose pragmas are currently ignored (latent), restricted to writes to variables declared outside the region; after the parallel division loop the whole list is renumbered from 0 after every population change. Also: no function executed inside a parallel region (body or callee closure) declares a mutable function-local static; the three component updates of vec3::translate are atomic also when written through a helper taking double& or a delegating overload.",
+   text="Decides data-race freedom and exception containment of every parallel region (directive regions and parallel_exception_handler call sites) in all six configurations: no exception can leave a region; a catch(...) in a region only stores current_exception() under critical and it is rethrown right after; no container is resized in a region while accessed outside the same critical section; every mutation of shared state by the region body or its whole callee closure is atomic, critical, under the node's lock, or confined to the loop's own element; vec3::translate's updates are atomic in the program as built (the compile database's flags are used, which is how the missing -fopenmp of math_modules was found). Also: the region rules are also decided for units built without -fopenmp whose pragmas are currently ignored (latent), restricted to writes to variables declared outside the region; after the parallel division loop the whole list is renumbered from 0 after every population change. Also: no function executed inside a parallel region (body or callee closure) declares a mutable function-local static; the three component updates of vec3::translate are atomic also when written through a helper taking double& or a delegating overload. Also: no work is reserved for one particular thread id inside a work-shared region.",
    note="Bit-identity of results across thread counts and schedules is not decided (no schedule exploration in this family). Aliasing between different handles is not tracked; virtual calls by CHA.",
    ref="DESIGN.md section 4 C15, section 3 E6"),
  "C17": dict(
@@ -74,7 +74,7 @@ CLAIMS.update({
 CLAIMS.update({
  "C02": dict(
    technique="symbolic ledgers and gradient identities on cell.cpp's force routines (LF engine; |n| handled as an algebraic symbol with L^2 = n.n), hinge-side tag analysis, slot/receiver dataflow, compositional translation typing",
-   text="Decides for all operand values: tension/elasticity forces of a face sum to zero, have zero torque and equal (-(tension of that face's type)+elasticity factor)*dA/dx_k with the cached normal being the normalised cross product as computed by update_face_normal_and_area (opened); each node of a face receives normal*pressure_*area/3; get_angle_gradient's three gradients sum to zero, each node receives the slot of its own position from each call and the regularisation forces cancel; in the bending term every product combines normal, cotangent and area of the same face of the hinge and the four hinge nodes receive their own slots; every add_force argument of the routines is translation invariant (arguments of opaque geometric calls included). Also: all four hinge forces carry one common stiffness factor; the forces of one zero-sum ledger are applied under identical guard chains (all or none); no routine of class cell visits the node/face slots [0, live count) (slot-loop lint). Also: a face is skipped by the tension / pressure routines only under a condition that makes its force vanish identically; vec3::get_angle_with is acos of the normalised dot product (range [0, pi]).",
+   text="Decides for all operand values: tension/elasticity forces of a face sum to zero, have zero torque and equal (-(tension of that face's type)+elasticity factor)*dA/dx_k with the cached normal being the normalised cross product as computed by update_face_normal_and_area (opened); each node of a face receives normal*pressure_*area/3; get_angle_gradient's three gradients sum to zero, each node receives the slot of its own position from each call and the regularisation forces cancel; in the bending term every product combines normal, cotangent and area of the same face of the hinge and the four hinge nodes receive their own slots; every add_force argument of the routines is translation invariant (arguments of opaque geometric calls included). Also: all four hinge forces carry one common stiffness factor; the forces of one zero-sum ledger are applied under identical guard chains (all or none); no routine of class cell visits the node/face slots [0, live count) (slot-loop lint). Also: a face is skipped by the tension / pressure routines only under a condition that makes its force vanish identically; vec3::get_angle_with is acos of the normalised dot product (range [0, pi]). Also: no force block is skipped for a range of a quantity the force depends on (range guards of the bending / angle forces).",
    note="Zero net force / torque of the pressure and bending terms as a whole are global identities over a closed surface and are not decided; neither is agreement with dV/dx beyond the per-face form, nor rotation equivariance.",
    ref="DESIGN.md section 4 C02"),
 })
@@ -95,7 +95,7 @@ CLAIMS.update({
 CLAIMS.update({
  "C08": dict(
    technique="qualifier (id-kind) inference over clang AST with declared getter/field kinds; must-pass-through on the structured CFG; phase-order analysis of run_iteration; literal-vs-validation table",
-   text="Decides in all six configurations: no comparison, subscript, map key, coupling record or id/index setter mixes persistent cell ids, list indices, node/face indices, global face ids and face-type indices (one reasoned allow-list entry); every population change in run_iteration / cell_divider::run is followed on every path by the renumbering loop; cell ids come only from the post-incremented counter; coupling readers run after the contact model's reset of the same iteration with no population change in between; literal face-type indices used by live code of a cell class are covered by the start-up validation for that class; faces get owner_cell_ = shared_from_this() when adopted or created. Also: no node renumbering (cell::rebase, e.g. through mesh_writer::write) and no conditional skipping of the contact phase between the creation of the couplings and their last reader; the renumbering loops start at position 0 and follow every population change, including the append of the daughters. Also: the id counter is never a by-value copy; the coupling reset runs for every used node; under contact model 2 the key of an inserting coupled_nodes_map_[k] look-up is drawn from that node's own keys.",
+   text="Decides in all six configurations: no comparison, subscript, map key, coupling record or id/index setter mixes persistent cell ids, list indices, node/face indices, global face ids and face-type indices (one reasoned allow-list entry); every population change in run_iteration / cell_divider::run is followed on every path by the renumbering loop; cell ids come only from the post-incremented counter; coupling readers run after the contact model's reset of the same iteration with no population change in between; literal face-type indices used by live code of a cell class are covered by the start-up validation for that class; faces get owner_cell_ = shared_from_this() when adopted or created. Also: no node renumbering (cell::rebase, e.g. through mesh_writer::write) and no conditional skipping of the contact phase between the creation of the couplings and their last reader; the renumbering loops start at position 0 and follow every population change, including the append of the daughters. Also: the id counter is never a by-value copy; the coupling reset runs for every used node; under contact model 2 the key of an inserting coupled_nodes_map_[k] look-up is drawn from that node's own keys. Also: the pairs stored in coupling records carry (cell position index, node id) in that order.",
    note="Liveness of the designated node at use time over arbitrary histories (e.g. a coupled node deleted by remeshing between contact phase and integrator) is not decided. Kinds are declared in a table in the checker.",
    ref="DESIGN.md section 4 C08, section 3 E4"),
 })
@@ -103,7 +103,7 @@ CLAIMS.update({
 CLAIMS.update({
  "C18": dict(
    technique="binding-table extraction by dataflow over clang AST (string literal -> get_string_value -> optional -> conversion -> field) compared with frozen reference tables; consumer (who-reads-which-field) table",
-   text="Decides for all 31 XML tags: the tag is presence-tested (throwing) before use, converted with the right function, stored in the field of that name, lower-cased/INF-mapped exactly for the two documented tags, and every sign validation tests the field just assigned with the documented comparison; cell and face types are appended in document order; every parameter field is consumed at the site the frozen consumer table names (time step -> integrator and growth, duration -> run loop, sampling period -> save_mesh, edge length -> refiner/divider/contact grid/initial triangulation, swap flag -> refiner, biomechanical fields -> the force routines of the matching kind; repulsive/adhesive contact blocks read repulsion/adherence strength). The binding table is extracted by value flow (tag literal -> optional -> dominating presence test with throw -> conversions -> field, through locals, reference locals, helpers and constant tables), so it is independent of statement order, nesting and splitting into helpers. Also: a mesh cell of type id k is built with the k-th cell type of the parameter file; a validation must not be switched off by another condition; the run loop is bounded by the duration itself.",
+   text="Decides for all 31 XML tags: the tag is presence-tested (throwing) before use, converted with the right function, stored in the field of that name, lower-cased/INF-mapped exactly for the two documented tags, and every sign validation tests the field just assigned with the documented comparison; cell and face types are appended in document order; every parameter field is consumed at the site the frozen consumer table names (time step -> integrator and growth, duration -> run loop, sampling period -> save_mesh, edge length -> refiner/divider/contact grid/initial triangulation, swap flag -> refiner, biomechanical fields -> the force routines of the matching kind; repulsive/adhesive contact blocks read repulsion/adherence strength). The binding table is extracted by value flow (tag literal -> optional -> dominating presence test with throw -> conversions -> field, through locals, reference locals, helpers and constant tables), so it is independent of statement order, nesting and splitting into helpers. Also: a mesh cell of type id k is built with the k-th cell type of the parameter file; a validation must not be switched off by another condition; the run loop is bounded by the duration itself. Also: a mem-initializer of the solver does not copy a member that a later initializer sets; sign checks are not dead (made on an unsigned copy); INF is taken on its own branch.",
    note="Reference tables are frozen in the checker from doc/parameter_file_doc.md and the struct definitions; rows added to the reader are tolerated. std::stod's numeric parsing of arbitrary magnitudes is not decided.",
    ref="DESIGN.md section 4 C18, section 3 E5"),
 })
@@ -119,7 +119,7 @@ CLAIMS.update({
 CLAIMS.update({
  "C16": dict(
    technique="writer/reader binding-table agreement: string templates of the writer's emissions vs the reader's regex literals, declared-count vs emitting-loop agreement, extracted from clang AST",
-   text="Decides table agreement between mesh_writer and mesh_reader: every section line the writer emits (POINTS n float, CELLS a b, CELL_TYPES n, the cell_type_id field header) is matched by the reader's regex for that section, the declared coordinate type is accepted, the %.4e tokens are matched entirely by the reader's number regex and not cut by its end-of-section detector; declared counts agree with the emitting loops (points = sum of node_lst sizes with three coordinates per node, per-cell record 1+4F with literal 3 and get_node_ids() of size 3 plus the cell's own node offset, CELLS/CELL_TYPES counts, data-array lengths, cell_type_id from global_type_id_); the reader requires type 42 and verifies record lengths. Also: mesh overload of write_cell_data: the declared record length sums the node counts of ALL faces. Also: a cell record of the CELLS section is ended by exactly one newline at the level of the loop over the cells (the reader takes every line as one record). Also: every cell is compacted (rebase) before any writer takes counts from it.",
+   text="Decides table agreement between mesh_writer and mesh_reader: every section line the writer emits (POINTS n float, CELLS a b, CELL_TYPES n, the cell_type_id field header) is matched by the reader's regex for that section, the declared coordinate type is accepted, the %.4e tokens are matched entirely by the reader's number regex and not cut by its end-of-section detector; declared counts agree with the emitting loops (points = sum of node_lst sizes with three coordinates per node, per-cell record 1+4F with literal 3 and get_node_ids() of size 3 plus the cell's own node offset, CELLS/CELL_TYPES counts, data-array lengths, cell_type_id from global_type_id_); the reader requires type 42 and verifies record lengths. Also: mesh overload of write_cell_data: the declared record length sums the node counts of ALL faces. Also: a cell record of the CELLS section is ended by exactly one newline at the level of the loop over the cells (the reader takes every line as one record). Also: every cell is compacted (rebase) before any writer takes counts from it. Also: node ids written for a face are looked up in the face's own cell (no running offset that assumes dense numbering); the reader tries the path exactly as given first.",
    note="Equality of the tissue after a round trip and precision of %.4e are value-level and not decided. Reader regexes are evaluated with Python's re (they only use constructs common to both dialects).",
    ref="DESIGN.md section 4 C16"),
 })
